@@ -21,6 +21,7 @@ fn main()
 		Some("export-eval") => ast_eval::run_export(),
 		Some("mut-eval") => ast_eval::run_mut(),
 		Some("syntax-eval") => ast_eval::run_syntax(),
+		Some("lint-tree-eval") => ast_eval::run_lint_tree(),
 		_ =>
 		{
 			eprintln!("usage: pv_replay <error-codes|value-types|lexdiff>");
